@@ -20,6 +20,11 @@ import (
 
 var lmtpAddrs = [2]string{"a@x", "b@y"}
 
+var lmtpCounter int
+
+// lmtpAddrSets: the two recipient addresses of a generated case; some pairs differ in letter case only
+var lmtpAddrSets = [][2]string{{"a@x", "b@y"}, {"user@Example.org", "user@example.org"}, {"User@x", "user@x"}, {"a@x", "b@y"}}
+
 // all sequences over {0,1} of length 1..max
 func lmtpRcptSeqs(max int) [][]int {
 	var res [][]int
@@ -120,6 +125,8 @@ func lmtpRun(rng *rand.Rand, lc lmtpCase, emit func(*Sx)) {
 	cfg := DefaultCfg()
 	cfg.LMTP = true
 	cfg.LMTPSession = lc.session
+	lmtpCounter++
+	lmtpAddrs := lmtpAddrSets[lmtpCounter%len(lmtpAddrSets)]
 	b := &convBuilder{rng: rng, cfg: cfg}
 	b.line("LHLO x")
 	b.line("MAIL FROM:<s@x>")
